@@ -152,18 +152,6 @@ fn c17_div_edges() {
     kani::cover!(x.0[3] != 0 && x.0[0] != 0);
 }
 
-/// DIV by a power of two 2^k (symbolic k in 0..256) equals a right shift by k.
-#[kani::proof]
-#[kani::unwind(6)]
-fn c17_div_pow2() {
-    let x = any_u256();
-    let k: usize = kani::any();
-    kani::assume(k < 256);
-    let r = arithmetic::div(x, pow2(k));
-    assert!(same(&r, ref_shr(&x.0, k)));
-    kani::cover!(k == 77 && r.0[2] != 0);
-}
-
 /// MOD: x % 0 = 0, 0 % x = 0, x % 1 = 0.
 #[kani::proof]
 #[kani::unwind(6)]
@@ -173,18 +161,6 @@ fn c17_mod_edges() {
     assert!(same(&arithmetic::modulo(U256(ZERO), x), ZERO));
     assert!(same(&arithmetic::modulo(x, U256(ONE)), ZERO));
     kani::cover!(x.0[3] != 0 && x.0[0] != 0);
-}
-
-/// MOD by 2^k (symbolic k) equals masking the k low bits.
-#[kani::proof]
-#[kani::unwind(6)]
-fn c17_mod_pow2() {
-    let x = any_u256();
-    let k: usize = kani::any();
-    kani::assume(k < 256);
-    let r = arithmetic::modulo(x, pow2(k));
-    assert!(same(&r, ref_mask(&x.0, k)));
-    kani::cover!(k == 77 && r.0[1] != 0 && x.0[3] != 0);
 }
 
 /// SDIV: x / 0 = 0, 0 / x = 0, x / 1 = x, x / -1 = -x (two's complement, so MIN / -1 = MIN).
@@ -216,38 +192,6 @@ fn c17_smod_edges() {
     kani::cover!(x.0[3] >> 63 == 1 && x.0[0] != 0);
 }
 
-/// SDIV by +2^k, k in 0..255: truncation towards zero: sign(x) * (|x| >> k).
-#[kani::proof]
-#[kani::unwind(6)]
-fn c17_sdiv_pow2() {
-    let x = any_u256();
-    let k: usize = kani::any();
-    kani::assume(k < 255);
-    let r = arithmetic::sdiv(x, pow2(k));
-    let neg = x.0[3] >> 63 == 1;
-    let mag = if neg { ref_neg(&x.0) } else { x.0 };
-    let q = ref_shr(&mag, k);
-    let expect = if neg { ref_neg(&q) } else { q };
-    assert!(same(&r, expect));
-    kani::cover!(neg && k == 77 && r.0[0] != 0);
-}
-
-/// SMOD by +2^k, k in 0..255: result has the sign of the dividend: sign(x) * (|x| mod 2^k).
-#[kani::proof]
-#[kani::unwind(6)]
-fn c17_smod_pow2() {
-    let x = any_u256();
-    let k: usize = kani::any();
-    kani::assume(k < 255);
-    let r = arithmetic::smod(x, pow2(k));
-    let neg = x.0[3] >> 63 == 1;
-    let mag = if neg { ref_neg(&x.0) } else { x.0 };
-    let m = ref_mask(&mag, k);
-    let expect = if neg { ref_neg(&m) } else { m };
-    assert!(same(&r, expect));
-    kani::cover!(neg && k == 77 && r.0[0] != 0);
-}
-
 // ---------------------------------------------------------------- ADDMOD / MULMOD edges
 /// ADDMOD / MULMOD with modulus 0 -> 0 (Yellow Paper) and modulus 1 -> 0.
 #[kani::proof]
@@ -275,16 +219,79 @@ fn c17_mulmod_one() {
     kani::cover!(a.0[3] == u64::MAX && b.0[3] == u64::MAX);
 }
 
-/// ADDMOD with modulus 2^k: (a + b) is NOT reduced mod 2^256 first (Yellow Paper: "all
+// ---------------------------------------------------------------- powers of two
+// Division / remainder by 2^k with the dividend fully symbolic.  A SYMBOLIC k does not finish
+// (div, mod: > 600 s; k restricted to 0..64: > 400 s; addmod: 11.6 GB / OOM), therefore k is a
+// literal per harness: small divisors take the single-limb path of `uint` (`div_mod_small`),
+// divisors >= 2^64 the Knuth path (`div_mod_knuth`), both are represented.
+
+fn div_pow2(k: usize) {
+    let x = any_u256();
+    let r = arithmetic::div(x, pow2(k));
+    assert!(same(&r, ref_shr(&x.0, k)));
+    kani::cover!(r.0[0] != 0 && x.0[3] >> 63 == 1);
+}
+
+fn mod_pow2(k: usize) {
+    let x = any_u256();
+    let r = arithmetic::modulo(x, pow2(k));
+    assert!(same(&r, ref_mask(&x.0, k)));
+    kani::cover!(r.0[0] != 0 && x.0[3] >> 63 == 1);
+}
+
+/// SDIV by +2^k: truncation towards zero: sign(x) * (|x| >> k).
+fn sdiv_pow2(k: usize) {
+    let x = any_u256();
+    let r = arithmetic::sdiv(x, pow2(k));
+    let neg = x.0[3] >> 63 == 1;
+    let mag = if neg { ref_neg(&x.0) } else { x.0 };
+    let q = ref_shr(&mag, k);
+    let expect = if neg { ref_neg(&q) } else { q };
+    assert!(same(&r, expect));
+    kani::cover!(neg && r.0[0] != 0);
+}
+
+/// SMOD by +2^k: result takes the sign of the dividend: sign(x) * (|x| mod 2^k).
+fn smod_pow2(k: usize) {
+    let x = any_u256();
+    let r = arithmetic::smod(x, pow2(k));
+    let neg = x.0[3] >> 63 == 1;
+    let mag = if neg { ref_neg(&x.0) } else { x.0 };
+    let m = ref_mask(&mag, k);
+    let expect = if neg { ref_neg(&m) } else { m };
+    assert!(same(&r, expect));
+    kani::cover!(neg && r.0[0] != 0);
+}
+
+/// ADDMOD with modulus 2^k: the sum is NOT reduced mod 2^256 first (Yellow Paper: "all
 /// intermediate calculations of this operation are not subject to the 2^256 modulo"), so the
 /// result is the k low bits of the 257-bit sum = the k low bits of the wrapped 256-bit sum.
-#[kani::proof]
-#[kani::unwind(10)]
-fn c17_addmod_pow2() {
+fn addmod_pow2(k: usize) {
     let (a, b) = (any_u256(), any_u256());
-    let k: usize = kani::any();
-    kani::assume(k < 256);
     let r = arithmetic::addmod(a, b, pow2(k));
     assert!(same(&r, ref_mask(&ref_add(&a.0, &b.0), k)));
-    kani::cover!(k == 200 && r.0[3] != 0 && a.0[3] == u64::MAX && b.0[3] == u64::MAX);
+    kani::cover!(r.0[0] != 0 && a.0[3] == u64::MAX && b.0[3] == u64::MAX);
 }
+
+macro_rules! pow2_harness {
+    ($name:ident, $f:ident, $k:literal, $unw:literal) => {
+        #[kani::proof]
+        #[kani::unwind($unw)]
+        fn $name() {
+            $f($k)
+        }
+    };
+}
+pow2_harness!(c17_div_pow2_k1, div_pow2, 1, 6);
+pow2_harness!(c17_div_pow2_k63, div_pow2, 63, 6);
+pow2_harness!(c17_div_pow2_k64, div_pow2, 64, 6);
+pow2_harness!(c17_div_pow2_k100, div_pow2, 100, 6);
+pow2_harness!(c17_div_pow2_k255, div_pow2, 255, 6);
+pow2_harness!(c17_mod_pow2_k1, mod_pow2, 1, 6);
+pow2_harness!(c17_mod_pow2_k63, mod_pow2, 63, 6);
+pow2_harness!(c17_mod_pow2_k100, mod_pow2, 100, 6);
+pow2_harness!(c17_sdiv_pow2_k7, sdiv_pow2, 7, 6);
+pow2_harness!(c17_sdiv_pow2_k130, sdiv_pow2, 130, 6);
+pow2_harness!(c17_smod_pow2_k7, smod_pow2, 7, 6);
+pow2_harness!(c17_smod_pow2_k130, smod_pow2, 130, 6);
+pow2_harness!(c17_addmod_pow2_k7, addmod_pow2, 7, 10);
